@@ -66,6 +66,13 @@ class Universe:
         self.defined: set = set()
         self.codecs: dict = {}
         self.twin_dialect = twin_dialect
+        self.aux = None
+        if spec.get("aux"):
+            self.aux = types.ModuleType(self.name + "_aux")
+            sys.modules[self.aux.__name__] = self.aux
+            exec(compile(F.render_aux(spec), self.aux.__name__, "exec", dont_inherit=True),
+                 self.aux.__dict__)
+            self.mod.AUX = self.aux
         self._exec(F.render_prelude(spec) + TRACE_SRC)
         self.defined.update(n for n, c in self.fam.classes.items() if c.get("kind") == "nt")
         if mode == "ref":
@@ -90,6 +97,8 @@ class Universe:
 
     def dispose(self):
         sys.modules.pop(self.name, None)
+        if self.aux is not None:
+            sys.modules.pop(self.aux.__name__, None)
 
     # ------------------------------------------------------------------
     def value(self, v):
@@ -140,8 +149,8 @@ def _strip_none(doc):
 # --------------------------------------------------------------------------
 
 _MISSING = object()
-_MODNAME = re.compile(r"vfam_\d+")
-_MODNAME_B = re.compile(rb"vfam_\d+")
+_MODNAME = re.compile(r"vfam_\d+(_aux)?")
+_MODNAME_B = re.compile(rb"vfam_\d+(_aux)?")
 
 
 def canon(x, _depth=0):
